@@ -248,9 +248,18 @@ type bnode struct {
 // `realtime` they go to the pipe unchanged.
 type vconn struct {
 	net.Conn
-	b   *brokerDomain
-	mu  sync.Mutex
-	rdl int64 // virtual read deadline (ms), 0 = none
+	b     *brokerDomain
+	mu    sync.Mutex
+	rdl   int64 // virtual read deadline (ms), 0 = none
+	muted int32 // 1: every write to this connection fails (a broken peer the broker has not noticed yet)
+}
+
+func (c *vconn) Write(p []byte) (int, error) {
+	if atomic.LoadInt32(&c.muted) == 1 {
+		bump()
+		return 0, errors.New("injected write failure")
+	}
+	return c.Conn.Write(p)
 }
 
 func (c *vconn) SetDeadline(t time.Time) error {
@@ -1086,6 +1095,19 @@ func (b *brokerDomain) step(f []string) string {
 		pl, _ := unhex(f[3])
 		p := &packet.Publish{Header: &packet.Header{Qos: int32(atoi(f[4])), Retain: f[5] == "1", Dup: f[6] == "1"}, Topic: topicOf(f[2]), Payload: pl, MessageId: int32(atoi(f[7]))}
 		return b.observe(c.send(p))
+	case f[0] == "mute" && len(f) == 3:
+		// mute <c> <0|1>: writes of the broker to this connection fail from now on (the session stays registered: the
+		// broker only notices a dead peer when it reads)
+		c := cl(f[1])
+		if c == nil || c.srv == nil {
+			return "noclient"
+		}
+		v := int32(0)
+		if f[2] == "1" {
+			v = 1
+		}
+		atomic.StoreInt32(&c.srv.muted, v)
+		return "ok"
 	case f[0] == "burst" && len(f) == 6:
 		// burst <c> <topic> <qos> <first> <n>: n publishes back to back, payload = 16-bit counter from <first>
 		c := cl(f[1])
